@@ -256,7 +256,7 @@ func main() {
 	}
 	nFull, nStaged, perFile := 200, 84, 19
 	if ctx.Thorough() {
-		nFull, nStaged, perFile = 6000, 1500, 480
+		nFull, nStaged, perFile = 3000, 900, 100
 	}
 	if ctx.Search {
 		nFull, nStaged = nFull*3, nStaged*2
